@@ -682,6 +682,9 @@ func exec(c px.Context, op string, args []sx.Sexp) (r core.Result) {
 	if op == "embed" {
 		return execEmbed(c, args)
 	}
+	if op == "wk" {
+		return execWk(c, args)
+	}
 	if len(args) != 2 {
 		return
 	}
@@ -716,7 +719,9 @@ func exec(c px.Context, op string, args []sx.Sexp) (r core.Result) {
 		case "obj":
 			r = obj(fc, tyOf(args[0]), args[1])
 		case "objreg":
-			r = objreg(fc, tyOf(args[0]), args[1])
+			r = objreg(fc, tyOf(args[0]), args[1], false)
+		case "objregp":
+			r = objreg(fc, tyOf(args[0]), args[1], true)
 		}
 	})
 	return
@@ -866,6 +871,9 @@ func refl(c px.Context, t *gty, ve sx.Sexp, register bool) core.Result {
 	}
 	if !ancOK {
 		return res(out, "FAIL parent-type-rejects-child a type derived from an embedded parent struct rejects "+ws)
+	}
+	if d := otherWaysBack(c, t, wrapped, back); d != "" {
+		return res(out, "FAIL "+d)
 	}
 	return res(out, "ok")
 }
@@ -1368,6 +1376,11 @@ func obj(c px.Context, t *gty, ve sx.Sexp) core.Result {
 		}
 		eq := reflect.DeepEqual(gv.Interface(), back.Interface())
 		out += " | " + names[vi] + "=ok back=" + encGo(t, back) + " eq=" + sx.B(eq)
+		if eq && pred == "ok" {
+			if d := ptrDestBack(c, t, o2, back); d != "" {
+				pred = "FAIL " + d
+			}
+		}
 		if !eq && pred == "ok" {
 			cl := diffClass(t, gv, back)
 			if cl == "" {
@@ -1736,14 +1749,14 @@ func attrNameOf(f gfield) string {
 // declareStructs declares, innermost first, an object type R::S<i> for every struct type in t from a Puppet type
 // declaration (attribute name => derived type of the field, pointer fields and declared defaults with a value) and maps
 // it to the Go type with ImplementationRegistry.RegisterType: instances are plain attribute slices, not Go-backed
-func declareStructs(c px.Context, t *gty, seen map[reflect.Type]px.Type) {
+func declareStructs(c px.Context, t *gty, seen map[reflect.Type]px.Type, withParent bool) {
 	if t == nil {
 		return
 	}
-	declareStructs(c, t.key, seen)
-	declareStructs(c, t.elem, seen)
+	declareStructs(c, t.key, seen, withParent)
+	declareStructs(c, t.elem, seen, withParent)
 	for _, f := range t.fields {
-		declareStructs(c, f.t, seen)
+		declareStructs(c, f.t, seen, withParent)
 	}
 	if t.kind != "struct" {
 		return
@@ -1753,7 +1766,14 @@ func declareStructs(c px.Context, t *gty, seen map[reflect.Type]px.Type) {
 		return
 	}
 	as := []string{}
-	for _, f := range t.fields {
+	fields, parentDecl := t.fields, ""
+	if withParent && declaredParent(t) != nil {
+		// @objregp: the embedded first field is the DECLARED parent (its attributes are inherited, the field gets none):
+		// FromReflectedValue / ToReflectedValue then descend into the embedded struct with the parent type
+		parentDecl = "parent => " + seen[fields[0].t.rtype()].Name() + ", "
+		fields = fields[1:]
+	}
+	for _, f := range fields {
 		ft, err := px.WrapReflectedType(c, f.t.rtype())
 		if err != nil {
 			panic(err)
@@ -1768,7 +1788,7 @@ func declareStructs(c px.Context, t *gty, seen map[reflect.Type]px.Type) {
 		as = append(as, "'"+attrNameOf(f)+"' => "+decl)
 	}
 	name := "R::S" + strconv.Itoa(len(seen)+1)
-	px.AddTypes(c, types.NamedType("", name, types.Parse("attributes => {"+strings.Join(as, ", ")+"}")))
+	px.AddTypes(c, types.NamedType("", name, types.Parse("{"+parentDecl+"attributes => {"+strings.Join(as, ", ")+"}}")))
 	pt := c.ParseType(name)
 	c.ImplementationRegistry().RegisterType(pt, rt)
 	seen[rt] = pt
@@ -1797,37 +1817,67 @@ func walkStructs(t *gty, v reflect.Value, fn func(st *gty, sv reflect.Value)) {
 	}
 }
 
-func objreg(c px.Context, t *gty, ve sx.Sexp) core.Result {
-	if t.kind != "struct" {
+func objreg(c px.Context, t *gty, ve sx.Sexp, withParent bool) core.Result {
+	if !t.has("struct") {
 		return core.Result{Out: "bad-op", Pred: "FAIL harness-bad-op objreg needs a struct type"}
 	}
 	gv := build(t, ve)
 	rt := t.rtype()
 	tags := []string{"k:objreg"}
+	// the fields of a struct value that the declared type has attributes for: all of them, or (with declared parents) those
+	// of the embedded parent first, then the own
+	fieldVals := func(st *gty, sv reflect.Value) []fieldVal {
+		if withParent {
+			return attrFieldVals(st, sv)
+		}
+		out := []fieldVal{}
+		for i, f := range st.fields {
+			out = append(out, fieldVal{f, sv.Field(i)})
+		}
+		return out
+	}
+	if withParent {
+		tags = []string{"k:objregp"}
+	}
 	res := func(out, pred string) core.Result { return core.Result{Out: out, Pred: oneLine(pred), NonTrivial: true, Tags: tags} }
 	na := notReflectable(t) != "" || hasNaN(t, gv)
 	seen := map[reflect.Type]px.Type{}
-	if k, text := safely(func() { declareStructs(c, t, seen) }); k != "" {
+	if k, text := safely(func() { declareStructs(c, t, seen, withParent) }); k != "" {
 		if na {
 			return res("declare="+k, "n/a")
 		}
 		return res("declare="+k, regFailPred(t, k, text))
 	}
 	pt := seen[rt]
+	if t.kind != "struct" {
+		// structs inside a container / behind a pointer at the top: the type of the whole is derived with the declared types
+		// found through the implementation registry
+		if k, text := safely(func() {
+			var err error
+			if pt, err = px.WrapReflectedType(c, rt); err != nil {
+				panic(err)
+			}
+		}); k != "" {
+			if na {
+				return res("type="+k, "n/a")
+			}
+			return res("type="+k, "FAIL fault derive type: "+text)
+		}
+	}
 	// every struct value inside the value goes through FromReflectedValue / ToReflectedValue of its own type
 	cause := ""
 	walkStructs(t, gv, func(st *gty, sv reflect.Value) {
-		for i, f := range st.fields {
-			if cause == "" && f.t.kind != "struct" && !(f.t.kind == "ptr" && f.t.elem.kind == "struct") {
-				cause = instCause(f.t, sv.Field(i), false, false)
+		for _, fv := range fieldVals(st, sv) {
+			if f := fv.f; cause == "" && f.t.kind != "struct" && !(f.t.kind == "ptr" && f.t.elem.kind == "struct") {
+				cause = instCause(f.t, fv.v, false, false)
 			}
 		}
 		// FromReflectedValue calls px.New(T, hash of the non-nil fields): when the first attribute itself accepts that hash
 		// the single Hash argument is ambiguous by design of the object constructor (DESIGN §11) — outside the property
 		if k, _ := safely(func() {
 			es := []*types.HashEntry{}
-			for i, f := range st.fields {
-				sf := sv.Field(i)
+			for _, fv := range fieldVals(st, sv) {
+				f, sf := fv.f, fv.v
 				if sf.Kind() == reflect.Ptr {
 					sf = sf.Elem()
 				}
@@ -1883,9 +1933,9 @@ func objreg(c px.Context, t *gty, ve sx.Sexp) core.Result {
 	if !eq {
 		cl := diffClass(t, gv, back)
 		walkStructs(t, gv, func(st *gty, sv reflect.Value) {
-			for i, f := range st.fields {
+			for _, fv := range fieldVals(st, sv) {
 				// a nil pointer / slice / map field is left out by FromReflectedValue, so the attribute takes its declared default
-				if tagItem(f.tag, "value") != "" && tagItem(f.tag, "value") != "undef" && leftOutNil(sv.Field(i)) {
+				if f := fv.f; tagItem(f.tag, "value") != "" && tagItem(f.tag, "value") != "undef" && leftOutNil(fv.v) {
 					cl = "nil-ptr-takes-declared-default"
 				}
 			}
@@ -1896,7 +1946,14 @@ func objreg(c px.Context, t *gty, ve sx.Sexp) core.Result {
 		return res(out, "FAIL "+cl+" "+encGo(t, gv)+" came back as "+encGo(t, back))
 	}
 	if !inst {
-		return res(out, "FAIL type-rejects-wrapped "+pt.String()+" rejects "+out)
+		cl := "type-rejects-wrapped"
+		if t.kind != "struct" {
+			// the container / pointer around the structs: the causes refl names (a nil slice wraps to undef, …)
+			if ic := instClass(t, gv, true); ic != "" {
+				cl = ic
+			}
+		}
+		return res(out, "FAIL "+cl+" "+pt.String()+" rejects "+out)
 	}
 	return res(out, "ok")
 }
@@ -2388,6 +2445,7 @@ func randStruct(r *rand.Rand, depth int, prefix string) *gty {
 
 func gen(g *core.G) {
 	genEmbed(g)
+	genWk(g)
 	nraw := 0
 	emit := func(t *gty, v string) {
 		if t.has("struct") {
@@ -2408,11 +2466,22 @@ func gen(g *core.G) {
 			if t.kind == "struct" {
 				if plainTags {
 					g.Emit("@objreg " + t.sexp().String() + " " + v)
+					if hasDeclaredParent(t) {
+						g.Emit("@objregp " + t.sexp().String() + " " + v)
+					}
 				}
 				if len(t.fields) > 0 {
 					g.Emit(pre + "obj " + t.sexp().String() + " " + v)
 				} else {
 					g.Emit("@obj " + t.sexp().String() + " " + v)
+				}
+			}
+			if t.kind != "struct" && plainTags && notReflectable(t) == "" {
+				// structs inside containers / behind pointers at the top through the registry-mapped path: FromReflectedValue
+				// receives the POINTER when the element is one
+				g.Emit("@objreg " + t.sexp().String() + " " + v)
+				if hasDeclaredParent(t) {
+					g.Emit("@objregp " + t.sexp().String() + " " + v)
 				}
 			}
 			if nraw++; nraw%10 == 0 && plainTags {
